@@ -462,13 +462,11 @@ class SVG:
             svg.apply_style_attributes(inplace=True)
             return svg
 
-        if self.elements:
-            # if we already parsed the SVG shapes, apply style attrs and sync tree
-            for shape in self.shapes():
-                shape.apply_style_attribute(inplace=True)
-            self._update_etree()
+        # sync the tree with any shapes already parsed: a parsed shape also carries the
+        # style it inherits, which must not be applied to the shape itself
+        self._update_etree()
 
-        # parse all remaining style attributes (e.g. in gradients or root svg element)
+        # parse all style attributes (shapes, groups, gradients, root svg element)
         for el in itertools.chain((self.svg_root,), self.xpath("//svg:*[@style]")):
             self._apply_styles(el)
 
